@@ -521,11 +521,11 @@ func (self Node) Field(id thrift.FieldID) (v Node) {
 	}
 	for it.HasNext() {
 		i, t, s, e := it.Next(UseNativeSkipForGet)
-		if i == id {
-			v = self.slice(s, e, t)
-			goto ret
-		} else if it.Err != nil {
+		if it.Err != nil {
 			v = errNode(meta.ErrRead, "", it.Err)
+			goto ret
+		} else if i == id {
+			v = self.slice(s, e, t)
 			goto ret
 		}
 	}
